@@ -13,7 +13,7 @@ package core
 
 //@ define closedfx(c) = !c.opened ==> (c.inMsgQueue == nil && c.inFragQueue == nil && c.outFragQueue == nil)
 // what newTCPConn / eventloop.open establish for a live connection and closeConn relies on (assumed at its call sites)
-//@ define connok(el, c) = c != nil && closedfx(c) && (c.opened ==> (c.loop != nil && c.loop.ln != nil && c.outboundBuffer != nil && el.eventHandler != nil && el.poller != nil && el.connections != nil && c.inMsgQueue != nil && c.inFragQueue != nil && c.outFragQueue != nil))
+//@ define connok(el, c) = c != nil && closedfx(c) && (c.opened ==> (c.loop != nil && c.loop.ln != nil && c.outboundBuffer != nil && elastic.mwf(c.outboundBuffer) && el.eventHandler != nil && el.poller != nil && el.connections != nil && c.inMsgQueue != nil && c.inFragQueue != nil && c.outFragQueue != nil))
 
 //@ func conn.write
 //@   flags trusted
@@ -53,10 +53,11 @@ package core
 //@   modifies c.opened, c.buffer, c.localAddr, c.remoteAddr, c.pollAttachment, c.initStep, c.initStatus, c.isSlave, c.connType
 //@   modifies c.inMsgQueue, c.inFragQueue, c.outFragQueue, elastic.RingBuffer.rb, ring.Buffer.r, ring.Buffer.w, ring.Buffer.isEmpty
 //@   modifies elastic.Buffer.pending, linkedlist.Buffer.bs, linkedlist.Buffer.head, linkedlist.Buffer.tail, linkedlist.Buffer.size, linkedlist.Buffer.bytes
+//@   modifies linkedlist.node.next, linkedlist.node.buf, allmem("[]byte")
 //@   modifies mapof(el.connections), FragQueue.head, FragQueue.tail, FragQueue.count, Frag.next, Frag.prev, Frag.intree
 //@   ensures !c.opened && closedfx(c)
 //@   loop 0
-//@     invariant c != nil && c.loop != nil && c.loop.ln != nil && c.outboundBuffer != nil && c.opened && el.eventHandler != nil && el.poller != nil && el.connections != nil
+//@     invariant c != nil && c.loop != nil && c.loop.ln != nil && c.outboundBuffer != nil && elastic.mwf(c.outboundBuffer) && c.opened && el.eventHandler != nil && el.poller != nil && el.connections != nil
 //@     invariant c.inMsgQueue != nil && c.inFragQueue != nil && c.outFragQueue != nil
 
 //@ define alldone(l) = forall i int :: 0 <= i && i < l.count ==> mqm(l, i).Done
